@@ -37,14 +37,17 @@ CHECKS["C05"] = {
 CHECKS["C01"] = {
     "text": "Lean theorems: detailed balance of the single-slot MH move with the haplotype-copy-count proposal ratio for every positive weight "
             "(hence every read set, prior, inbreeding and inverse temperature), tied to the model's kernel with real-power tempering; generic "
-            "path-wise detailed balance instantiated for the recombination and dosage moves on multisets of segment pairs (return count never zero); "
+            "path-wise detailed balance instantiated for the recombination and dosage moves on multisets of segment pairs (return count never zero) and "
+            "carried to the literal kernels of the model (segment labels by first occurrence, double-loop option enumerators, structural_change, "
+            "return count on the option's label array): dosage_step_kernel_db / recomb_step_kernel_db hold for every ploidy, locus length, interval, "
+            "duplication pattern and temperature, and the kernel mass is independent of the stored row order; "
             "exchange detailed balance; the posterior weight is a function of the multiset of haplotypes; DB => stationarity. The model kernel "
             "(options, exact R and Q) is tied to base_step / interval_step / chain_swap_acceptance by comparing the full map "
             "{unordered result -> probability} at 1e-9; the implementation oracle extracts the whole transition matrix on enumerated instances.",
     "design_ref": "DESIGN.md section 4, C01",
-    "note": _NOTE + "The literal option enumerators are proved to have the abstract path counts and to produce abstract paths with the same targets "
-            "(labels level); that the integer labels name segments injectively (segmentLabels) is covered by the correspondence; the kernel is observed on .py_func with random_choice replaced; ergodicity is not claimed.",
-    "technique": "Lean 4 proof (factorial-product swap lemma, MH core, path-wise reversal bijection, rpow algebra) + kernel-level differential correspondence",
+    "note": _NOTE + "Hypotheses of the literal-kernel theorems: all rows have n_base entries, lo <= hi <= n_base, both genotypes have positive weight "
+            "(a zero-likelihood state is never entered). The kernel is observed on .py_func with random_choice replaced; ergodicity is not claimed.",
+    "technique": "Lean 4 proof (factorial-product swap lemma, MH core, path-wise reversal bijection, refinement of the label-level enumerators through an injective relabelling, rpow algebra) + kernel-level differential correspondence",
 }
 CHECKS["C02"] = {
     "text": "Lean theorems: the Gibbs vector is the exact full conditional of likelihood x Polya-urn probability on ordered allele sequences "
